@@ -57,13 +57,19 @@ class Prog:
         return [{"mn": mn, "ops": [self.labels[o] if isinstance(o, str) else o for o in ops]} for mn, ops in self.ins]
 
 
-def compile_ast(ast: Dict[str, Any]) -> List[Dict[str, Any]]:
+def compile_ast(ast: Dict[str, Any]) -> List[List[Dict[str, Any]]]:
+    """the subroutines of the case: one, or (split) the set-up and the body as two subroutines of the same application"""
+    progs = []
     p = Prog()
     nq = ast["nq"]
     perq = ast.get("regstyle") in ("perqubit", "hoisted")     # one Q register per qubit instead of the SDK's Q0 / Q1
     hoisted = ast.get("regstyle") == "hoisted"                # ... written once at the start, never again
 
-    def qr(q, pos):
+    free = ast.get("regstyle") == "free"                      # any register for any qubit, chosen per gate
+
+    def qr(q, pos, s_=None):
+        if free and s_ is not None:
+            return Q(s_.get("ra" if pos == 0 else "rb", pos))
         return Q(q) if perq else Q(pos)
 
     def setq(reg, q):
@@ -95,7 +101,7 @@ def compile_ast(ast: Dict[str, Any]) -> List[Dict[str, Any]]:
     def body(stmts, depth):
         for s in stmts:
             k = s["s"]
-            if hoisted and k in ("lg1", "lg2", "stale", "meas", "recycle", "mov"):
+            if hoisted and k in ("lg1", "lg2", "stale", "meas", "recycle", "mov", "lmov", "retry"):
                 one(s, depth)
                 p.emit("set", Q(0), 0)      # these statements address their qubit through Q0 / Q1: restore the hoisted values
                 p.emit("set", Q(1), 1)
@@ -106,12 +112,31 @@ def compile_ast(ast: Dict[str, Any]) -> List[Dict[str, Any]]:
         if True:
             k = s["s"]
             if k == "g1":
-                setq(qr(s["q"], 0), s["q"])
-                gate(s["g"], [qr(s["q"], 0)], s.get("imm"))
+                setq(qr(s["q"], 0, s), s["q"])
+                gate(s["g"], [qr(s["q"], 0, s)], s.get("imm"))
             elif k == "g2":
-                setq(qr(s["a"], 0), s["a"])
-                setq(qr(s["b"], 1), s["b"])
-                gate(s["g"], [qr(s["a"], 0), qr(s["b"], 1)], None)
+                setq(qr(s["a"], 0, s), s["a"])
+                setq(qr(s["b"], 1, s), s["b"])
+                gate(s["g"], [qr(s["a"], 0, s), qr(s["b"], 1, s)], None)
+            elif k == "lmov":                      # relocation with both registers read from the array of qubit ids (NV keep path)
+                p.emit("set", Q(0), s["dst"])
+                p.emit("qalloc", Q(0))
+                p.emit("init", Q(0))
+                p.emit("set", R(4), s["src"])
+                p.emit("load", Q(0), 1, R(4))
+                p.emit("set", R(4), s["dst"])
+                p.emit("load", Q(1), 1, R(4))
+                p.emit("mov", Q(0), Q(1))
+                p.emit("qfree", Q(0))
+            elif k == "retry":                     # repeat until the outcome is 0: the label is the first line of the body
+                top = p.label()
+                p.place(top)
+                body(s["body"], depth)
+                p.emit("set", Q(0), s["q"])
+                p.emit("meas", Q(0), Mr(0))
+                if hoisted:
+                    p.emit("set", Q(0), 0)
+                p.emit("bnz", Mr(0), top)
             elif k == "lg1":                       # qubit register written by load
                 p.emit("set", R(4), s["q"])
                 p.emit("load", Q(0), 1, R(4))
@@ -195,10 +220,14 @@ def compile_ast(ast: Dict[str, Any]) -> List[Dict[str, Any]]:
     for i in range(6):
         p.emit("set", R(5), i)
         p.emit("store", Mr(0), 0, R(5))
+    if ast.get("split"):
+        progs.append(p.resolve())
+        p = Prog()
     body(ast["body"], 0)
     if ast.get("ret", True):
         p.emit("ret_arr", 0)
-    return p.resolve()
+    progs.append(p.resolve())
+    return progs
 
 
 # --------------------------------------------------------------------------
@@ -218,15 +247,16 @@ def gen_ast(rng: random.Random, flavour: str) -> Dict[str, Any]:
     def g1():
         q = rng.choice(sorted(alive))
         if rng.random() < 0.6:
-            return {"s": "g1", "g": rng.choice(ONE), "q": q}
-        return {"s": "g1", "g": rng.choice(ROT), "q": q, "imm": [rng.choice([1, 2, 3, 5, 8, 16, 24, 31]), rng.choice([1, 2, 3, 4])]}
+            return {"s": "g1", "g": rng.choice(ONE), "q": q, "ra": rng.randrange(4)}
+        return {"s": "g1", "g": rng.choice(ROT), "q": q, "imm": [rng.choice([1, 2, 3, 5, 8, 16, 24, 31]), rng.choice([1, 2, 3, 4])], "ra": rng.randrange(4)}
 
     def g2():
         a, b = rng.sample(sorted(alive), 2)
         if 0 not in alive:
             # a carbon-carbon gate borrows the electron: without one the NV program faults (recorded finding, directed case)
             return g1()
-        return {"s": "g2", "g": rng.choice(["cnot", "cphase"]), "a": a, "b": b}
+        ra, rb = rng.sample(range(4), 2)
+        return {"s": "g2", "g": rng.choice(["cnot", "cphase"]), "a": a, "b": b, "ra": ra, "rb": rb}
 
     def stmt(depth):
         p = rng.random()
@@ -279,7 +309,17 @@ def gen_ast(rng: random.Random, flavour: str) -> Dict[str, Any]:
         if rng.random() < 0.4:
             last = {"s": "loop", "n": rng.choice([1, 2]), "body": [g1()] if alive else [{"s": "add", "slot": 0, "v": 1}]}
         body.append(last)
-    return {"nq": nq, "alloc": alloc, "body": body, "ret": not ends_in_label, "regstyle": rng.choice(["sdk", "sdk", "perqubit", "hoisted"])}
+    style = rng.choice(["sdk", "sdk", "perqubit", "hoisted", "free"])
+    split = rng.random() < 0.3 and style != "hoisted"      # (registers written once cannot be written in an earlier subroutine: the transpiler works per subroutine)
+    if split and alloc and rng.random() < 0.5:
+        # the body is a subroutine of its own that starts with a repeat-until-success loop: its label is line 0
+        q = rng.choice(sorted(alloc))
+        inner = [{"s": "g1", "g": "h", "q": q, "ra": 0}]
+        if len(alloc) >= 2 and 0 in alloc:
+            a_, b_ = rng.sample(sorted(alloc), 2)
+            inner.insert(0, {"s": "g2", "g": rng.choice(["cnot", "cphase"]), "a": a_, "b": b_, "ra": 2, "rb": 3})
+        body = [{"s": "retry", "q": q, "body": inner}] + body
+    return {"nq": nq, "alloc": alloc, "body": body, "ret": not ends_in_label, "regstyle": style, "split": split}
 
 
 def directed() -> List[Dict[str, Any]]:
@@ -301,6 +341,17 @@ def directed() -> List[Dict[str, Any]]:
         D.append({**c_c, "regstyle": style, "body": [{"s": "if", "on": "arr", "slot": 0, "cmp": "eq", "v": 1, "body": [{"s": "g2", "g": "cnot", "a": 1, "b": 2}]}, {"s": "g2", "g": "cphase", "a": 2, "b": 1}], "ret": True})
         D.append({**four, "regstyle": style, "body": [{"s": "g2", "g": "cnot", "a": 1, "b": 2}, {"s": "g1", "g": "h", "q": 3}, {"s": "g2", "g": "cnot", "a": 2, "b": 3}, {"s": "g2", "g": "cphase", "a": 3, "b": 1}], "ret": True})
         D.append({**four, "regstyle": style, "body": [{"s": "loop", "n": 2, "body": [{"s": "g2", "g": "cnot", "a": 3, "b": 1}, {"s": "if", "on": "cnt", "cmp": "eq", "v": 0, "body": [{"s": "g2", "g": "cphase", "a": 1, "b": 2}]}]}], "ret": False})
+    # a subroutine of its own whose first line is a loop label (repeat until success); branch target line 0
+    D.append({**e_c, "split": True, "body": [{"s": "retry", "q": 0, "body": [{"s": "g2", "g": "cnot", "a": 1, "b": 0}, {"s": "g1", "g": "h", "q": 0}]}, {"s": "g1", "g": "x", "q": 1}], "ret": True})
+    D.append({**c_c, "split": True, "body": [{"s": "retry", "q": 1, "body": [{"s": "g2", "g": "cphase", "a": 1, "b": 2}, {"s": "g1", "g": "h", "q": 1}]}], "ret": False})
+    # the electron addressed through different registers by two carbon -> electron gates
+    D.append({**c_c, "regstyle": "free", "body": [{"s": "g2", "g": "cnot", "a": 1, "b": 0, "ra": 1, "rb": 0}, {"s": "g2", "g": "cnot", "a": 2, "b": 0, "ra": 1, "rb": 2},
+                                                {"s": "g2", "g": "cnot", "a": 1, "b": 0, "ra": 3, "rb": 1}, {"s": "g1", "g": "h", "q": 0, "ra": 3}], "ret": True})
+    D.append({**c_c, "regstyle": "free", "body": [{"s": "g2", "g": "cnot", "a": 1, "b": 0, "ra": 1, "rb": 0}, {"s": "g1", "g": "h", "q": 2, "ra": 0},
+                                                {"s": "g2", "g": "cnot", "a": 1, "b": 0, "ra": 1, "rb": 2}, {"s": "g1", "g": "x", "q": 1, "ra": 2},
+                                                {"s": "g2", "g": "cnot", "a": 2, "b": 0, "ra": 0, "rb": 3}], "ret": True})
+    # relocation with both registers read from the array of qubit ids
+    D.append({"nq": 2, "alloc": [0], "body": [{"s": "g1", "g": "h", "q": 0}, {"s": "lmov", "src": 0, "dst": 1}, {"s": "g1", "g": "t", "q": 1}], "ret": True})
     # nested conditionals that end on the same label
     D.append({**c_c, "body": [{"s": "if", "on": "arr", "slot": 0, "cmp": "eq", "v": 0, "body": [{"s": "g2", "g": "cnot", "a": 1, "b": 2}, {"s": "if", "on": "arr", "slot": 1, "cmp": "eq", "v": 1, "body": [{"s": "g1", "g": "x", "q": 1}]}]}, {"s": "g1", "g": "h", "q": 2}], "ret": True})
     D.append({**c_c, "body": [{"s": "if", "on": "arr", "slot": 0, "cmp": "eq", "v": 1, "body": [{"s": "g2", "g": "cnot", "a": 1, "b": 2}, {"s": "if", "on": "arr", "slot": 1, "cmp": "eq", "v": 0, "body": [{"s": "g1", "g": "x", "q": 1}]}]}, {"s": "g1", "g": "h", "q": 2}], "ret": True})
@@ -329,50 +380,53 @@ def _run(item):
     from netqasm.lang.subroutine import Subroutine
     from netqasm.sdk.transpile import NVSubroutineTranspiler
     i, c = item
-    prog = compile_ast(c["ast"])
+    progs = compile_ast(c["ast"])
     clss = {k.mnemonic: k for k in isa.classes("vanilla")}
     shapes = {e["mn"]: e["shape"] for e in isa.extract_table()["vanilla"]}
-    regset = sorted({o for ins in prog for o, kind in zip(ins["ops"], _kinds(shapes[ins["mn"]], len(ins["ops"]))) if kind == "r"})
+    regset = sorted({o for prog in progs for ins in prog for o, kind in zip(ins["ops"], _kinds(shapes[ins["mn"]], len(ins["ops"]))) if kind == "r"})
     addrs = [0, 1]
-    row = dict(id=i, ast=c["ast"], debug=c["debug"], prog=prog, meas=c["meas"], umsize=4, regset=regset, addrs=addrs,
-               real=dict(status="", err="", regs=[], shregs=[], arrs=[], sharrs=[], um=[], qlog=[], nvlen=0))
+    row = dict(id=i, ast=c["ast"], debug=c["debug"], progs=progs, meas=c["meas"], umsize=4, regset=regset, addrs=addrs,
+               real=dict(status="", err="", regs=[], shregs=[], arrs=[], sharrs=[], um=[], qlog=[], nvlen=0, nvtext=[]))
     real = row["real"]
-    try:
-        objs = [isa.build(clss[x["mn"]], shapes[x["mn"]], x["ops"]) for x in prog]
-    except Exception as exc:
-        raise C.MachineryError(f"cannot build the source program: {exc}")
-    try:
-        tsub = NVSubroutineTranspiler(Subroutine(instructions=copy.deepcopy(objs), app_id=0), debug=c["debug"]).transpile()
-    except Exception as exc:
-        real["status"] = "transpile-error"
-        real["err"] = f"{type(exc).__name__}: {exc}"[:160]
-        return row
-    real["nvlen"] = len(tsub.instructions)
-    real["nvtext"] = [str(x) for x in tsub.instructions][:160]
-    try:
-        tsub = deserialize(bytes(tsub), flavour=NVFlavour())
-    except Exception as exc:
-        real["status"] = "not-serialisable"
-        real["err"] = f"{type(exc).__name__}: {exc}"[:160]
-        return row
     ex = rig.fresh_executor(meas_script=list(c["meas"]))
     ex.log_qfree = True
     ex.init_new_application(app_id=0, max_qubits=4)
-    gen = ex.execute_subroutine(tsub)
-    steps = 0
-    try:
-        for _ in gen:
-            steps += 1
-            if steps > 20000:
-                real["status"] = "loops"
-                break
-        else:
-            real["status"] = "done"
-    except rig.ScriptExhausted:
-        real["status"] = "loops"
-    except Exception as exc:
-        real["status"] = "fault"
-        real["err"] = f"{type(exc).__name__}: {str(exc).splitlines()[0]}"[:160]
+    for prog in progs:
+        try:
+            objs = [isa.build(clss[x["mn"]], shapes[x["mn"]], x["ops"]) for x in prog]
+        except Exception as exc:
+            raise C.MachineryError(f"cannot build the source program: {exc}")
+        try:
+            tsub = NVSubroutineTranspiler(Subroutine(instructions=copy.deepcopy(objs), app_id=0), debug=c["debug"]).transpile()
+        except Exception as exc:
+            real["status"] = "transpile-error"
+            real["err"] = f"{type(exc).__name__}: {exc}"[:160]
+            return row
+        real["nvlen"] += len(tsub.instructions)
+        real["nvtext"] += [str(x) for x in tsub.instructions][:160]
+        try:
+            tsub = deserialize(bytes(tsub), flavour=NVFlavour())
+        except Exception as exc:
+            real["status"] = "not-serialisable"
+            real["err"] = f"{type(exc).__name__}: {exc}"[:160]
+            return row
+        gen = ex.execute_subroutine(tsub)
+        steps = 0
+        try:
+            for _ in gen:
+                steps += 1
+                if steps > 20000:
+                    real["status"] = "loops"
+                    break
+            else:
+                real["status"] = "done"
+        except rig.ScriptExhausted:
+            real["status"] = "loops"
+        except Exception as exc:
+            real["status"] = "fault"
+            real["err"] = f"{type(exc).__name__}: {str(exc).splitlines()[0]}"[:160]
+        if real["status"] != "done":
+            break
     pr = rig.project(ex, 0, None, regset, addrs)
     real.update(regs=pr["regs"], shregs=pr["shregs"], arrs=pr["arrs"], sharrs=pr["sharrs"], um=pr["um"])
     real["qlog"] = [[g[0], list(g[1]), list(g[2])] for g in ex.gate_log]
@@ -412,8 +466,10 @@ def skeleton(ast) -> Dict[str, Any]:
             return [k, s["g"], role(s["old"]), role(s["a"]), role(s["b"])]
         if k in ("meas", "recycle"):
             return [k, role(s["q"])]
-        if k == "mov":
+        if k in ("mov", "lmov"):
             return [k, role(s["src"]), role(s["dst"])]
+        if k == "retry":
+            return [k, role(s["q"]), [sk(x) for x in s["body"]]]
         if k == "add":
             return [k]
         if k == "loop":
@@ -421,7 +477,8 @@ def skeleton(ast) -> Dict[str, Any]:
         if k == "if":
             return [k, s["on"], [sk(x) for x in s["body"]]]
         return [k]
-    return {"electron_allocated": 0 in ast["alloc"], "qubits": len(ast["alloc"]), "registers": ast.get("regstyle", "sdk"), "body": [sk(x) for x in ast["body"]], "ends_in_label": not ast.get("ret", True)}
+    return {"electron_allocated": 0 in ast["alloc"], "qubits": len(ast["alloc"]), "registers": ast.get("regstyle", "sdk"), "body": [sk(x) for x in ast["body"]], "ends_in_label": not ast.get("ret", True),
+            "subroutines": 2 if ast.get("split") else 1}
 
 
 def _candidates(ast):
@@ -434,7 +491,7 @@ def _candidates(ast):
             new = seq[:i] + seq[i + 1:]
             out.append(put(new))
             s = seq[i]
-            if s["s"] in ("loop", "if"):
+            if s["s"] in ("loop", "if", "retry"):
                 out.append(put(seq[:i] + s["body"] + seq[i + 1:]))
                 if s["s"] == "loop" and s["n"] > 1:
                     out.append(put(seq[:i] + [dict(s, n=1)] + seq[i + 1:]))
@@ -446,6 +503,10 @@ def _candidates(ast):
     rec(lambda: ast["body"], lambda nb: dict(ast, body=nb))
     if not ast.get("ret", True):
         out.append(dict(ast, ret=True))
+    if ast.get("split"):
+        out.append(dict(ast, split=False))
+    if ast.get("regstyle", "sdk") != "sdk":
+        out.append(dict(ast, regstyle="sdk"))
     used = _used(ast["body"])
     for q in ast["alloc"]:
         if q not in used and q != 0:
@@ -478,7 +539,7 @@ def _valid(ast) -> bool:
                 return False
             if k in ("g2", "lg2", "stale") and s["a"] == s["b"]:
                 return False
-            if k == "mov":
+            if k in ("mov", "lmov"):
                 if not top or s["src"] not in alive or s["dst"] in alive:
                     return False
                 alive.discard(s["src"])
@@ -499,6 +560,19 @@ def judge(cases, tmp, tag):
     if len(res.ok_ids) + len(bad) != len(rows):
         raise C.MachineryError("NvRefine gave no verdict for some programs")
     return rows, res, bad
+
+
+def _observable(r):
+    x = r["real"]
+    return json.dumps([x["status"], x["err"][:40], x["regs"], x["arrs"], x["sharrs"], x["um"], x["qlog"], x.get("nvtext")], sort_keys=True)
+
+
+def order_dependence(cases):
+    """Transpiling is a function of the subroutine: in ONE process, the same programs are transpiled and run in one
+    order and then in the reverse order; whatever differs depends on what was transpiled before."""
+    first = [_run((i + 1, c)) for i, c in enumerate(cases)]
+    second = list(reversed([_run((len(cases) - i, c)) for i, c in enumerate(reversed(cases))]))
+    return [(i, first[i], second[i]) for i in range(len(cases)) if _observable(first[i]) != _observable(second[i])]
 
 
 def shrink(case, clause, tmp, rounds=12):
@@ -555,6 +629,14 @@ def run(prop: str, tier: str) -> int:
             r = _run((0, small))
             V.add(clause, w, f"debug={small['debug']}: source program {json.dumps(small['ast'])}: {clause}; transpiled run: {r['real']['status']} {r['real']['err']} "
                   f"({len(rnd)} generated programs fail in this run)", {"ast": small["ast"], "debug": small["debug"], "meas": small["meas"], "nv": r["real"].get("nvtext", [])})
+        # state kept between transpilations (caches, class-level bookkeeping)
+        sample = cases[:ndir] + cases[ndir:ndir + (60 if tier == "quick" else 400)]
+        with ProcessPoolExecutor(max_workers=1) as one:
+            deps = one.submit(order_dependence, sample).result()
+        for i, a, b in deps[:6]:
+            V.add("transpilation-depends-on-earlier-transpilations", dict(skeleton(sample[i]["ast"]), debug=sample[i]["debug"]),
+                  f"source program {json.dumps(sample[i]['ast'])}: transpiled first in the process: {a['real']['status']} {a['real']['err']}; after other subroutines: {b['real']['status']} {b['real']['err']}",
+                  {"ast": sample[i]["ast"], "debug": sample[i]["debug"], "meas": sample[i]["meas"]})
         kinds: Dict[str, int] = {}
 
         def count(body):
@@ -568,7 +650,7 @@ def run(prop: str, tier: str) -> int:
             "states": res.distinct, "transitions": res.generated, "traces_validated_against_impl": len(rows), "evaluations": len(rows),
             "distinct_nontrivial": len({json.dumps(c_["ast"], sort_keys=True) for c_ in cases}),
             "rule": "one case = one vanilla program built from the SDK's instruction patterns (gates on electron and up to 3 carbons, loops, conditionals on outcomes / counters / array entries, in-place and recycling measurement, relocation by mov, qubit registers written by set or load, exit labels past the end) x debug off/on, transpiled by the real transpiler and run on the real executor; source semantics from Machine.tla",
-            "statements_by_kind": kinds, "ends_in_label": sum(1 for c_ in cases if not c_["ast"].get("ret", True)),
+            "statements_by_kind": kinds, "order_dependence_programs": len(sample), "ends_in_label": sum(1 for c_ in cases if not c_["ast"].get("ret", True)),
             "source_steps": res.generated, "samples": [cases[0]["ast"], cases[-1]["ast"]], "exhaustive": False, "checker_cmd": res.cmd,
         }
         return V.finish("model_checking", cov, ASSUME)
